@@ -90,6 +90,7 @@ class Replay:
         self.zc = self.host.zc
         self.model: Dict[str, rm.Svc] = {}
         self.infos: Dict[str, Any] = {}
+        self.retired: Dict[str, Tuple[Any, rm.Svc]] = {}  # objects of unregistered services (applications reuse them)
         self.errors: List[str] = []
 
     def apply(self, ev: tuple) -> None:
@@ -108,6 +109,9 @@ class Replay:
         if kind == "reg":
             desc = TEMPLATES[n]
             info = make_info(desc)
+            if n in self.retired and n not in self.model:
+                # the application registers the very object it unregistered earlier (with whatever it last described)
+                info, desc = self.retired.pop(n)
             try:
                 w.run_coro(zc.async_register_service(info, cooperating_responders=True))
                 if n in self.model:
@@ -120,6 +124,8 @@ class Replay:
         elif kind == "unreg":
             info = self.infos.get(n) or make_info(TEMPLATES[n])
             w.run_coro(zc.async_unregister_service(info))
+            if n in self.model:
+                self.retired[n] = (info, self.model[n])
             self.model.pop(n, None)
             self.infos.pop(n, None)
         else:
